@@ -12,7 +12,7 @@ satisfier compares; the verdict does not depend on it, `satisfyOk_any_cost`) -/
 def sizeAlg : Alg Nat Unit where
   iden := 1
   unit := 1
-  witness := 1
+  witness := fun _ => 1
   drop := fun x => x + 1
   comp := fun x y => x + y + 1
   pair := fun x y => x + y + 1
@@ -26,7 +26,7 @@ def sizeAlg : Alg Nat Unit where
 def unitRoots : Alg Unit Unit where
   iden := ()
   unit := ()
-  witness := ()
+  witness := fun _ => ()
   drop := fun _ => ()
   comp := fun _ _ => ()
   pair := fun _ _ => ()
@@ -42,10 +42,13 @@ def runCost (n : Nat) : Nat := min n (Thresh.MAX - 1)
 theorem runCost_lt (n : Nat) : runCost n < Thresh.MAX := by
   unfold runCost Thresh.MAX; omega
 
+/-- the verdict does not look at the witness values -/
+def noSecrets : Secrets := ⟨fun _ => .unit, fun _ => .unit⟩
+
 /-- the satisfier's decision: `satisfy_internal(..).get_node().is_some()`, i.e. `Policy::satisfy`
 does not answer `Unsatisfiable` -/
 def satisfyOk (a : Avail) (p : P) : Bool :=
-  (satisfyInternal sizeAlg unitRoots (fun _ => ()) runCost a p).isNode
+  (satisfyInternal sizeAlg unitRoots (fun _ => ()) runCost noSecrets a p).isNode
 
 /-- `Policy::sorted` -/
 def sorted (p : P) : P := sort p
